@@ -1,29 +1,41 @@
 """Which units decide which property.  Pure data; see DESIGN.md §5 for the rationale.
 
-VERUS[unit]   : template file under contracts/units, flags
-KANI[group]   : package, file the harness module is injected into, harness file, harnesses
-                harness kind: 'complete' (loop-free / fully unwound over the whole input domain: a proof)
-                              'bounded'  (stand-in, bound stated; never counted as proved)
-                              'finding'  (expected to FAIL: witnesses an entry of known_findings.txt)
-PROPS[id]     : units per tier + the clauses left undecided
+Fragments under engine/registry_d/*.py each define (all optional)
+  VERUS[unit]   : {'file': template under contracts/units, 'w32': bool (re-verify with Word = u32 in the thorough tier)}
+  KANI[group]   : {'package', 'target' (file the harness module is appended to), 'file' (under kani/harness),
+                   'harnesses': {name: {'kind': 'complete'|'bounded'|'finding', 'domain'|'bound': str,
+                                        'tier': 'quick'|'thorough', 'props': [ids] (optional filter)}}}
+                  kind 'complete' = loop-free / fully unwound over the whole input domain: a proof;
+                  kind 'bounded'  = stand-in with a stated bound, never counted as proved;
+                  kind 'finding'  = expected to FAIL: witnesses an entry of known_findings.txt
+  PROP_UNITS[id]: {'verus': [...], 'kani': [...], 'verus_thorough': [...], 'kani_thorough': [...],
+                   'undecided': [clauses left undecided]}
+and are merged here.  PROPS (claims, notes) lives in this file.
 """
+import glob
+import importlib.util
+import os
 
-VERUS = {
-    'int_prim': {'file': 'int_prim.rs', 'w32': True},
-    'int_add': {'file': 'int_add.rs', 'w32': True},
-}
+VERUS = {}
+KANI = {}
+_UNITS = {}
 
-KANI = {
-    'int_math': {
-        'package': 'dashu-int', 'target': 'integer/src/math.rs', 'file': 'int_math.rs',
-        'harnesses': {
-            'vk_math_ones_word': {'kind': 'complete', 'domain': 'all n <= 64'},
-            'vk_math_ones_dword': {'kind': 'complete', 'domain': 'all n <= 128'},
-            'vk_math_shl_dword': {'kind': 'complete', 'domain': 'all u128 x all shifts <= 64'},
-            'vk_math_shr_word': {'kind': 'complete', 'domain': 'all u64 x all shifts < 64'},
-        },
-    },
-}
+for _f in sorted(glob.glob(os.path.join(os.path.dirname(os.path.abspath(__file__)), 'registry_d', '*.py'))):
+    _spec = importlib.util.spec_from_file_location('registry_d_' + os.path.basename(_f)[:-3], _f)
+    _m = importlib.util.module_from_spec(_spec)
+    _spec.loader.exec_module(_m)
+    for _k, _v in getattr(_m, 'VERUS', {}).items():
+        assert _k not in VERUS, 'duplicate verus unit ' + _k
+        VERUS[_k] = _v
+    for _k, _v in getattr(_m, 'KANI', {}).items():
+        assert _k not in KANI, 'duplicate kani group ' + _k
+        KANI[_k] = _v
+    for _p, _u in getattr(_m, 'PROP_UNITS', {}).items():
+        _d = _UNITS.setdefault(_p, {})
+        for _k, _v in _u.items():
+            for _x in _v:
+                if _x not in _d.setdefault(_k, []):
+                    _d[_k].append(_x)
 
 NOT_APPLICABLE = {
     'C11': 'transcendental accuracy needs real analysis (exp/ln over the reals) as specification and the loops '
